@@ -51,11 +51,13 @@ def jobs(tier):
           defs=["-DV_CLASS=%d" % k], timeout=120)
         J("store.sectPrepare_fixed_layout.class%d" % k, "h_sectPrepare_fixed", ["stoInit", "sectPrepare", "sectQmCount"],
           ["q", "off"], defs=["-DV_OS_REFUSES", "-DV_CLASS=%d" % k], cbmc=UNW_INIT, checks=CHK_TABLES)
-    # stoRecode through the real page-map macros: tried, symbolic execution of sectFor()/sectAt() over heap bytes does not
-    # finish in 300 s for any class (same wall the stoAlloc/stoFree attempt hit) -> thorough tier only, expected undecided
-    for k in ((0, 2, 3, 5, 7, 11) if tier == "thorough" and False else ()):
+    # stoRecode: the block -> section step (_sectFor) is modelled, the index computation and the tag write are the real code
+    # classes 1 (16 bytes: index by shift) and 2 (24 bytes: index by table) in quick, the other ten in thorough (~2-4 min each)
+    for k in ((1, 2) if tier != "thorough" else range(12)):
         J("store.stoRecode_fixed.class%d" % k, "h_stoRecode_fixed", ["stoRecode", "sectPrepare", "stoInit"],
-          ["q", "g", "code"], defs=["-DV_OS_REFUSES", "-DV_CLASS=%d" % k], cbmc=UNW_INIT, checks=CHK_TABLES)
+          ["q", "g", "code"], defs=["-DV_OS_REFUSES", "-DV_CLASS=%d" % k, "-DV_MODEL_SECTFOR"], cbmc=UNW_INIT, checks=CHK_TABLES, timeout=900,
+          splice={"store.c": {"_rename_def": {"_sectFor": "_sectFor__real"}}},
+          assumed=["_sectFor (page-map walk from an address to its section) is replaced by a model returning the one section of the harness heap; its definition is renamed mechanically on every run"])
     J("canary.store.sectQmCount", "h_sectQmCount", ["sectQmCount"], ["pageCount"], kind="canary",
       defs=["-DCANARY_sectQmCount", "-DV_CLASS=4"], cbmc=U12)
     J("canary.store.sectPrepare_fixed_layout", "h_sectPrepare_fixed", ["stoInit", "sectPrepare", "sectQmCount"], ["q", "off"],
